@@ -6,7 +6,10 @@
     binder accepts, `_reverse_<op>` recovers exactly the bound arguments;
   * `<op>_inverse_shape`: the registered inverse, called with the arguments `_reverse_<op>` computes, restores the
     original batch size, for every rank / size / (negative) dim;
-  * frame theorems about the write-back; lock_/unlock_ revert.
+  * frame theorems about the write-back; lock_/unlock_ revert;
+  * `<op>_block_never_raises` (7 shape ops) / `<keys op>_block_identity`: the WHOLE `with` block of the model — binder, forward call,
+    edits, `_reverse_<op>`, binder again on the call it builds, inverse call, write-back — returns normally for every accepted
+    spelling, and leaves the original's metadata as it was when the block adds no key.
 -/
 import TdVerif.Gen.CtxTable
 import TdVerif.Model.C17Ctx
